@@ -10,6 +10,8 @@ pub mod paths;
 pub mod positions;
 pub mod rename;
 pub mod sched;
+pub mod squash;
+pub mod symbols;
 pub mod reqs;
 
 pub fn get(id: &str) -> Option<Box<dyn Engine>> {
@@ -20,6 +22,8 @@ pub fn get(id: &str) -> Option<Box<dyn Engine>> {
         "C12" => Some(Box::new(reqs::C12)),
         "C11" => Some(Box::new(sched::C11)),
         "C14" => Some(Box::new(names::C14)),
+        "C17" => Some(Box::new(squash::C17)),
+        "C18" => Some(Box::new(symbols::C18)),
         "C15" => Some(Box::new(paths::C15)),
         "C09" => Some(Box::new(actions::C09)),
         "C10" => Some(Box::new(actions::C10)),
